@@ -233,7 +233,15 @@ class Peer:
                     lazymsg('peer.close.api.failed reason=process_error'),
                     self.id(),
                 )
-        self.fsm.change(FSM.IDLE)
+        try:
+            self.fsm.change(FSM.IDLE)
+        except ProcessError:
+            # FSM.change sets the state before it tells the API: the state is IDLE, the connection must
+            # still be closed (an exception here left it open, on a peer whose task then died)
+            log.debug(
+                lazymsg('peer.close.api.failed reason=process_error event=fsm'),
+                self.id(),
+            )
 
         self.stats.update(
             {
